@@ -37,8 +37,22 @@ func runVariantChild(repo string, rule *PropertyRule, variant string) int {
 			return 0
 		}
 		mod := strings.Replace(string(src), m.Find, m.Replace, 1)
-		if m.Pre == "import-time" {
-			mod = strings.Replace(mod, "import (\n", "import (\n\t\"time\"\n", 1)
+		if m.Pre != "" {
+			// auxiliary edit needed for the variant to compile (an import, an extracted helper)
+			var pres map[string]struct{ Kind, Find, Replace, Text string }
+			b, _ := os.ReadFile(filepath.Join(verifDir(), "checker", "audit", "pre.json"))
+			_ = json.Unmarshal(b, &pres)
+			pe, okP := pres[m.Pre]
+			switch {
+			case okP && pe.Kind == "append":
+				mod += pe.Text
+			case okP && pe.Kind == "replace" && strings.Count(mod, pe.Find) == 1:
+				mod = strings.Replace(mod, pe.Find, pe.Replace, 1)
+			default:
+				out, _ := json.Marshal(childResult{Variant: variant, Failures: []string{"neutraliser not applicable: auxiliary edit " + m.Pre + " not applicable in " + m.File}})
+				fmt.Println(string(out))
+				return 0
+			}
 		}
 		v = Variant{Name: variant, Overlay: map[string][]byte{path: []byte(mod)}}
 		ok = true
